@@ -51,6 +51,9 @@ def corruptions(base):
     # 2-D: table shape claims one more reaction
     ev = copy.deepcopy(base[1]); ev[0]['tabshape'][0] += 1
     out.append(('TableShape', 1, 0, ev, None, None))
+    # 2-D: the returned table claims an integer dtype
+    ev = copy.deepcopy(base[1]); ev[0]['tabfloat'] = False; ev[0]['tabdtype'] = 'int64'
+    out.append(('TableIsFloat', 1, 0, ev, None, None))
     # slice line: the 1-D table differs from the 2-D slice
     ev = copy.deepcopy(base[1]); ev[1]['tab'][0][0] = bump(ev[1]['tab'][0][0]); ev[1]['own'][0][0] = bump(ev[1]['own'][0][0])
     out.append(('OneDEqualsTwoDSlice', 1, 1, ev, None, None))
